@@ -6,6 +6,7 @@ require (
 	github.com/anishathalye/porcupine v1.3.0
 	github.com/pokt-network/posmint v0.0.0
 	github.com/tendermint/go-amino v0.15.0
+	github.com/tendermint/iavl v0.12.4
 	github.com/tendermint/tendermint v0.32.10
 	github.com/tendermint/tm-db v0.2.0
 )
@@ -32,7 +33,6 @@ require (
 	github.com/rs/cors v1.7.0 // indirect
 	github.com/stretchr/testify v1.4.0 // indirect
 	github.com/syndtr/goleveldb v1.0.1-0.20190318030020-c3a204f8e965 // indirect
-	github.com/tendermint/iavl v0.12.4 // indirect
 	golang.org/x/crypto v0.0.0-20190313024323-a1f597ede03a // indirect
 	golang.org/x/net v0.0.0-20190628185345-da137c7871d7 // indirect
 	golang.org/x/sys v0.0.0-20190813064441-fde4db37ae7a // indirect
